@@ -111,7 +111,7 @@ func NumberString() *rapid.Generator[string] {
 	)
 }
 
-var ratePool = []string{"1", "0.5", "0.25", "0.1", "1.0", ".3", "1e-1", "0.001", "5e-1", "0.999", "1e-9", "2", "10"}
+var ratePool = []string{"1", "0.5", "0.25", "0.1", "1.0", ".3", "1e-1", "0.001", "5e-1", "0.999", "1e-9", "2", "10", "1e-18", "1e-19", "1e-20", "1e-300", "4.9e-324", "0.00000000000000000000001"}
 
 var tagAlphabet = []string{"a", "b", "k", "v", "1", "9", ":", ".", "-", "_", "/", "#", "@", "=", " ", "\xc3\xa9", "\xff", "A", "Z", "host", "env", "s", "\r", "\t"}
 
